@@ -96,7 +96,8 @@ def gen_element(rng):
             nums, ltxt = [a, a + 3], f"Lots {a} and {a + 3}"
         return k, f"{atxt} of {ltxt}", {
             'lots': [f"{name} of L{n}" for n in nums],
-            'lots_suppressed': [f"L{n}" for n in nums]}
+            'lots_suppressed': [f"L{n}" for n in nums],
+            'ltxt': ltxt, 'nums': nums}
     if k == 'ALL':
         return k, 'ALL', None
     n = rng.choice([1, 1, 2, 2, 3])
@@ -273,6 +274,21 @@ def check_case(case, ctx, pytrs):
 def gen_case(rng):
     n = rng.choice([1, 2, 2, 3, 3, 4, 5, 6])
     elements = [gen_element(rng) for _ in range(n)]
+    divs = [e for e in elements if e[0] == 'lotdiv']
+    if divs and rng.random() < 0.3:
+        # the very same lots written once more further on -- plainly, or
+        # under another division ('N/2 of Lot 1, ..., S/2 of Lot 1')
+        _, _, m = rng.choice(divs)
+        if rng.random() < 0.5:
+            again = ('lot', m['ltxt'], {'lots': [f"L{x}" for x in m['nums']]})
+        else:
+            h = rng.choice(B.HALVES)
+            again = ('lotdiv', f"{h}/2 of {m['ltxt']}",
+                     {'lots': [f"{h}2 of L{x}" for x in m['nums']],
+                      'lots_suppressed': [f"L{x}" for x in m['nums']],
+                      'ltxt': m['ltxt'], 'nums': m['nums']})
+        elements.insert(rng.randint(elements.index(
+            next(e for e in elements if e[2] is m)) + 1, len(elements)), again)
     return {'elements': [list(e) for e in elements],
             'sep': rng.choice(SEPS), 'cfg': rng.choice(CONFIGS),
             'channel': rng.choice(CHANNELS)}
